@@ -1,47 +1,25 @@
 import Hive.Spec.WorkerPool
 import Hive.Conc.Sys
 /-!
-# Protocol model of `runtime/workerpool.WorkerPool` (workerpool.go, task.go) for C16
+# VARIANTS of the WorkerPool protocol model (copy of `Hive/Model/WorkerPool.lean` with two switches)
 
-(The code as repaired by a0dbad3 / 9b2668a / 1119368; the model of the old code is frozen in
-`Hive/Model/WorkerPoolOld.lean`.)
-
-Shared state = the pool (life-cycle flag under its RWMutex, pending counter, queue with its mutex and
-`elementAdded` condition, dispatch channel, shutdown-signal channel) **and the pool's own goroutines**
-(dispatcher, workers); a `runner` thread of the interleaving kit moves any of them, so goroutines
-spawned by `Start` need no thread of their own.  Client threads carry an arbitrary script of
-`Submit` / `Shutdown` / `Start` / `ShutdownComplete.Wait` / `PendingTasksCounter.WaitIsZero` calls.
-Tasks submit further tasks (`Body` is a tree).
-
-Every task has a record holding *its* program counter (`Phase`): whoever drives a task (its submitter,
-the dispatcher, the worker that received it) advances that phase in program order, and a step whose
-task is not in the expected phase is disabled.
-
-Atomicity choices (each justified by a lock that is held in the code):
-* `IsRunning()` = RLock, read, RUnlock: one step, enabled iff no writer holds the pool mutex;
-  `increasePendingTasksIfRunning()` = RLock, read, `Counter.Increase` (value change, subscriber
-  callbacks, broadcast), RUnlock: one step with the same guard;
-* `Counter.Get` / `Counter.Decrease`: one step each; `Counter.WaitIsZero`: a guard `pending = 0`;
-* `Stack.Push` (lock, append, unlock, broadcast) and `Stack.SignalShutdown` (lock, broadcast, unlock):
-  one step each, enabled iff the stack mutex is free;
-  `PopOrWait` is split exactly where the code can be interleaved: lock+look, the condition callback
-  `hasWork` = `IsRunning()` (needs the pool read lock) then `pending > 0` — both *while holding the
-  stack mutex* —, the gap before `Wait`, the wait;
-* `Start`'s critical section `startIfStopped` (lock; running? live workers? else `isRunning = true;
-  make chan; go dispatcher; workerCount × (Add; go worker)`; unlock) contains no blocking operation and
-  is one step, enabled iff the pool mutex is free; `liveWorkers` and `ShutdownComplete` are one counter
-  in the model (`wg`; a worker's two deferred decrements are one step);
-* `Shutdown`'s critical section `stop` contains the (possibly blocking) sends of the shutdown signals
-  and is therefore modelled step by step; the signal to the queue is sent after the unlock.
-The queue and the dispatch channel are kept as *sets* (phases `queued`, `inchan`): the order in which
-tasks are popped/received is not part of the property, so any order is allowed.
+Only for the witnesses of `Hive/Props/C16Old.lean`: two small changes of the code that the real model must
+distinguish.
+* `swapHasWork`: `hasWork()` reads the pending counter BEFORE `isRunning` (`pending > 0 || IsRunning()`); the real
+  code and the real model read `isRunning` first, as two separate steps.
+* `signalOne`: `Stack.SignalShutdown` uses `elementAdded.Signal()` (wakes ONE waiter: the dispatcher or a foreign
+  `Queue.WaitSizeIsAbove` caller) instead of `Broadcast()`.
+With both switches off this is the real model.
 -/
-namespace Hive.WP
+namespace Hive.WPVar
 open Hive.Conc
+open Hive.WP
 
 structure Params where
   W : Nat                   -- workerCount
   cancel : Bool             -- optCancelPendingTasksOnShutdown
+  swapHasWork : Bool := false
+  signalOne : Bool := false
 
 /-- A task's body: the tasks it submits (to the same pool) while it runs. -/
 inductive Body
@@ -121,6 +99,14 @@ def emit (p : Params) (e : Ev) (s : St) : St :=
 /-- `elementAdded.Broadcast()`: the dispatcher (if registered) and every foreign waiter are woken. -/
 def bcast (s : St) : St := { s with dwait := false, fwoken := s.fwoken + s.fwait, fwait := 0 }
 
+/-- `Queue.SignalShutdown()`: a broadcast, or (variant) a signal to one waiter — the alternatives. -/
+def signalShutdown (p : Params) (s : St) : List St :=
+  if p.signalOne then
+    (if s.dwait then [{ s with dwait := false }] else []) ++
+    (if 0 < s.fwait then [{ s with fwait := s.fwait - 1, fwoken := s.fwoken + 1 }] else []) ++
+    (if s.dwait = false ∧ s.fwait = 0 then [s] else [])
+  else [bcast s]
+
 def phaseOf (s : St) (t : Nat) : Option Phase := (s.tasks[t]?).map (·.phase)
 
 def setPhase (s : St) (t : Nat) (ph : Phase) : St :=
@@ -180,12 +166,20 @@ def popOrCond (s : St) : List St :=
 def dispStep (p : Params) (s : St) : List St :=
   match s.disp with
   | .none => []
-  | .loop => if s.writer then [] else [{ s with disp := if s.running then .pop else .chk }]
-  | .chk => [{ s with disp := if 0 < s.pending then .pop else .close }]
+  | .loop =>
+    if p.swapHasWork then [{ s with disp := if 0 < s.pending then .pop else .chk }]
+    else if s.writer then [] else [{ s with disp := if s.running then .pop else .chk }]
+  | .chk =>
+    if p.swapHasWork then (if s.writer then [] else [{ s with disp := if s.running then .pop else .close }])
+    else [{ s with disp := if 0 < s.pending then .pop else .close }]
   | .pop => if s.stackHeld then [] else popOrCond s
-  | .cond => if s.writer then [] else [{ s with disp := if s.running then .gap else .cond2 }]
+  | .cond =>
+    if p.swapHasWork then [{ s with disp := if 0 < s.pending then .gap else .cond2 }]
+    else if s.writer then [] else [{ s with disp := if s.running then .gap else .cond2 }]
   | .cond2 =>
-    if 0 < s.pending then [{ s with disp := .gap }]
+    if p.swapHasWork then
+      (if s.writer then [] else if s.running then [{ s with disp := .gap }] else [{ s with stackHeld := false, disp := .loop }])
+    else if 0 < s.pending then [{ s with disp := .gap }]
     else [{ s with stackHeld := false, disp := .loop }]
   | .gap => [{ s with stackHeld := false, dwait := true, disp := .waiting }]
   | .waiting => if s.dwait || s.stackHeld then [] else popOrCond s
@@ -226,7 +220,8 @@ def wStep (p : Params) (s : St) : WPc → List (St × WPc)
     | some .cancelling => [markDone p s t .cancelled true]
     | _ => []
   | .signal dr =>
-    if s.stackHeld then [] else [({ bcast s with due := s.due - 1 }, if dr then .drain else .sel)]
+    if s.stackHeld then []
+    else (signalShutdown p s).map (fun s1 => ({ s1 with due := s.due - 1 }, if dr then .drain else .sel))
   | .exited => []
 
 /-- The pool's goroutines: the dispatcher or any worker takes a step. -/
@@ -286,7 +281,7 @@ def clientStep (p : Params) (s : St) (c : Client) : List (St × Client) :=
   -- ... then `Queue.SignalShutdown()` (under the stack mutex) outside the pool lock
   | .sdBcast =>
     if s.stackHeld then []
-    else [(emit p .sdret { bcast s with due := s.due - 1 }, ⟨.idle, c.script⟩)]
+    else (signalShutdown p s).map (fun s1 => (emit p .sdret { s1 with due := s.due - 1 }, ⟨.idle, c.script⟩))
   -- Start: `for !startIfStopped() { [hook] ShutdownComplete.Wait() }`
   | .stTry =>
     if s.writer then []
@@ -333,4 +328,4 @@ def Thr.atQueueWait : Thr → Bool
 def mkClients (scripts : List (List Op)) : List Thr :=
   scripts.map (fun sc => .client ⟨.idle, sc⟩) ++ [.runner]
 
-end Hive.WP
+end Hive.WPVar
